@@ -118,3 +118,19 @@ Definition date_time : parser datetime :=
           end))
   <|>
   context (pmap (fun t => mkDT None (Some t) None) partial_time).
+
+(* the document grammar's date-time as reached through `Value::from_str` (value.rs: the
+   `b'+' | b'-' | b'0'..=b'9'` arm tries date_time first; Parser::parse then requires eof).
+   Proofs/ValueDatetime.v relates this to the full value parser. *)
+Definition doc_datetime (s : bytes) : option datetime :=
+  match s with
+  | b :: _ =>
+    if in_class VALUE_NUMBER_START b then
+      match date_time (new_input s) with
+      | Ok d i => match rest i with [] => Some d | _ => None end
+      | _ => None
+      end
+    else None
+  | [] => None
+  end.
+
